@@ -1,20 +1,21 @@
 (* Model of the compiled-template wire format: compiled.go SerializeCompiledTemplate, writeString,
    DeserializeCompiledTemplate, deserializeBinaryFormat, readString, LoadFromCompiled, and of the file
-   naming of compiled_loader.go (SaveCompiled / Load).
+   naming of compiled_loader.go (SaveCompiled / Load).  State of the code: after repair c024bc1.
 
    Byte layout written by SerializeCompiledTemplate (all integers little endian):
      u8 version = 1 | u32 len(Name) | Name | u32 len(Source) | Source |
      i64 LastModified | i64 CompileTime | u32 len(AST) | AST
-   The Go code converts every length with uint32(len(s)): the prefix is the length modulo 2^32 and no
-   check is made.  Reading goes through bytes.Reader, binary.Read and io.ReadFull only, which never
-   index past the end: a short read is an error value, never a panic.  The one unchecked step is
-   make([]byte, length) BEFORE io.ReadFull: the requested size comes from the stream and is not
-   compared with the number of bytes that are left.  The model records those requests in a trace.
+   The writer refuses a Name, Source or AST of 2^32 bytes or more (serialize_compiled_checked); the
+   layout function serialize_compiled itself is total and is what the writer emits when it accepts.
+   Reading goes through bytes.Reader, binary.Read and io.ReadFull only, which never index past the
+   end: a short read is an error value, never a panic.  Every make([]byte, n) is preceded by the test
+   n <= r.Len(), so the reader never asks for more memory than input is left; the model records the
+   requests in a trace.
 
-   When the binary format is rejected DeserializeCompiledTemplate hands the same bytes to encoding/gob
-   (old format).  gob itself is not modelled: it is a parameter of deserialize_compiled.  What is
-   modelled (gob_verdict_of) is the one interaction that matters for streams of the new format, whose
-   first byte 1 is, for gob, a message length of one byte.  No proofs in this file. *)
+   When the binary format is rejected and the data does not begin with the version byte 1,
+   DeserializeCompiledTemplate hands the bytes to encoding/gob (old format).  gob itself is not
+   modelled: it is a parameter of deserialize_compiled.  Data that begins with the byte 1 never
+   reaches gob.  No proofs in this file. *)
 From Twig Require Import Base.Bytes.
 From Coq Require Import NArith.
 Local Open Scope N_scope.
@@ -60,7 +61,7 @@ Definition wb_bytes (buf : bytes) : bytes := rev_append buf [].
 Definition write_string (buf : bytes) (s : bytes) : bytes :=
   wb_write (wb_write buf (put_u32 (lenN s))) s.
 
-(* SerializeCompiledTemplate; bytes.Buffer writes cannot fail, the function is total *)
+(* the bytes SerializeCompiledTemplate emits; bytes.Buffer writes cannot fail *)
 Definition serialize_compiled (c : compiled) : bytes :=
   let buf := wb_write [] [x01] in
   let buf := write_string buf (c_name c) in
@@ -70,6 +71,12 @@ Definition serialize_compiled (c : compiled) : bytes :=
   let buf := wb_write buf (put_u32 (lenN (c_ast c))) in
   let buf := wb_write buf (c_ast c) in
   wb_bytes buf.
+
+(* SerializeCompiledTemplate with its guards: writeString and the AST write refuse lengths above
+   math.MaxUint32 *)
+Definition serialize_compiled_checked (c : compiled) : option bytes :=
+  if (two32 <=? lenN (c_name c)) || (two32 <=? lenN (c_source c)) || (two32 <=? lenN (c_ast c))
+  then None else Some (serialize_compiled c).
 
 (* ---- reading: the only accessor. io.ReadFull(r, buf) with len(buf) = n on a bytes.Reader holding l:
    the next n bytes and the remainder, or an error when fewer than n bytes are left.  n = 0 succeeds
@@ -89,40 +96,35 @@ Definition read_u32 (l : bytes) : option (N * bytes) :=
 Definition read_i64 (l : bytes) : option (Z * bytes) :=
   match read_exact l 8 with Some (bs, r) => Some (i64_of_N (le_decode bs), r) | None => None end.
 
-(* deserializeBinaryFormat with the trace of make([]byte, n) sizes requested, in order.
-   readString: read the u32, allocate that many bytes, ReadFull. *)
+(* readString (and the same four steps for the AST in deserializeBinaryFormat): read the u32; error
+   when it exceeds what is left; only then make([]byte, n) - recorded in the trace - and ReadFull *)
+Definition read_string_tr (l : bytes) : option (bytes * bytes) * list N :=
+  match read_u32 l with
+  | None => (None, [])
+  | Some (n, r) => if lenN r <? n then (None, []) else (read_exact r n, [n])
+  end.
+
+(* deserializeBinaryFormat with the trace of make([]byte, n) sizes requested, in order *)
 Definition deserialize_binary_tr (data : bytes) : option compiled * list N :=
   match read_u8 data with
   | None => (None, [])
   | Some (v, r0) =>
     if negb (Byte.eqb v x01) then (None, []) else
-    match read_u32 r0 with
-    | None => (None, [])
-    | Some (nlen, r1) =>
-      match read_exact r1 nlen with
-      | None => (None, [nlen])
-      | Some (name, r2) =>
-        match read_u32 r2 with
-        | None => (None, [nlen])
-        | Some (slen, r3) =>
-          match read_exact r3 slen with
-          | None => (None, [nlen; slen])
-          | Some (src, r4) =>
-            match read_i64 r4 with
-            | None => (None, [nlen; slen])
-            | Some (lm, r5) =>
-              match read_i64 r5 with
-              | None => (None, [nlen; slen])
-              | Some (ct, r6) =>
-                match read_u32 r6 with
-                | None => (None, [nlen; slen])
-                | Some (alen, r7) =>
-                  match read_exact r7 alen with
-                  | None => (None, [nlen; slen; alen])
-                  | Some (ast, _) => (Some (mkCompiled name src lm ct ast), [nlen; slen; alen])
-                  end
-                end
-              end
+    match read_string_tr r0 with
+    | (None, a1) => (None, a1)
+    | (Some (name, r2), a1) =>
+      match read_string_tr r2 with
+      | (None, a2) => (None, a1 ++ a2)
+      | (Some (src, r4), a2) =>
+        match read_i64 r4 with
+        | None => (None, a1 ++ a2)
+        | Some (lm, r5) =>
+          match read_i64 r5 with
+          | None => (None, a1 ++ a2)
+          | Some (ct, r6) =>
+            match read_string_tr r6 with
+            | (None, a3) => (None, a1 ++ a2 ++ a3)
+            | (Some (ast, _), a3) => (Some (mkCompiled name src lm ct ast), a1 ++ a2 ++ a3)
             end
           end
         end
@@ -133,57 +135,31 @@ Definition deserialize_binary_tr (data : bytes) : option compiled * list N :=
 Definition deserialize_binary (data : bytes) : option compiled := fst (deserialize_binary_tr data).
 Definition deserialize_allocs (data : bytes) : list N := snd (deserialize_binary_tr data).
 
-(* DeserializeCompiledTemplate: empty input is an error; the binary format first; when that fails
-   the old gob format on the same bytes *)
+(* DeserializeCompiledTemplate: empty input is an error; the binary format first; when that fails,
+   data that begins with the version byte is reported as damaged, anything else goes to the old gob
+   format *)
 Section Gob.
   Variable gob_decode : bytes -> option compiled.
   Definition deserialize_compiled (data : bytes) : option compiled :=
     match data with
     | [] => None
-    | _ =>
+    | b0 :: _ =>
       match deserialize_binary data with
       | Some c => Some c
-      | None => gob_decode data
+      | None => if Byte.eqb b0 x01 then None else gob_decode data
       end
     end.
 End Gob.
 
-(* ---- what encoding/gob does with a stream that begins with the byte 1.
-   For gob the first byte is the length of the first message: one byte, the byte b that follows.  That
-   byte is a type id in the signed encoding of gob.  Even b < 128: id b/2.  Ids 18 (CommonType) and 21
-   (fieldType) are bootstrap struct types of the gob package that have a field called Name, which
-   makes them compatible with CompiledTemplate; the message has no bytes left for the value, and an
-   empty struct value decodes to the zero struct without an error.  Every other id below 64 is not a
-   struct with a matching field: error.  Odd b < 127: a definition for an id below 64: error.
-   b = 127: defines type 64 from an empty wire type and goes on to the next message (not modelled).
-   b >= 128: a multi-byte integer that does not fit the one-byte message: error. *)
 Definition empty_compiled : compiled := mkCompiled [] [] 0%Z 0%Z [].
 
-Inductive gob_verdict := GobAccept (c : compiled) | GobReject | GobUnmodelled.
-
-Definition gob_verdict_of (data : bytes) : gob_verdict :=
-  match data with
-  | [] => GobReject
-  | v :: rest =>
-    if Byte.eqb v x01 then
-      match rest with
-      | [] => GobReject
-      | b :: _ =>
-        if Byte.eqb b x24 || Byte.eqb b x2a then GobAccept empty_compiled
-        else if Byte.eqb b x7f then GobUnmodelled
-        else GobReject
-      end
-    else GobUnmodelled
-  end.
-
-(* the gob parameter used wherever a concrete one is needed: unmodelled counts as rejected, and the
-   driver marks those cases so that the runner does not compare them *)
-Definition gob_model (data : bytes) : option compiled :=
-  match gob_verdict_of data with GobAccept c => Some c | _ => None end.
+(* the gob parameter used by the case generator: gob is not modelled, so it rejects, and the
+   generator marks exactly the inputs that reach gob so that the runner does not compare them *)
+Definition gob_model (data : bytes) : option compiled := None.
 
 Definition gob_unmodelled (data : bytes) : bool :=
-  match deserialize_binary data, gob_verdict_of data with
-  | None, GobUnmodelled => true
+  match data, deserialize_binary data with
+  | b0 :: _, None => negb (Byte.eqb b0 x01)
   | _, _ => false
   end.
 
@@ -223,12 +199,13 @@ Definition model_serialize_ops : list bytes :=
    b#"writeString compiled.Source";
    b#"binary.Write LittleEndian compiled.LastModified";
    b#"binary.Write LittleEndian compiled.CompileTime";
+   b#"if uint64(len(compiled.AST)) > math.MaxUint32";
    b#"binary.Write LittleEndian uint32(len(compiled.AST))";
    b#"Write compiled.AST"].
 Definition model_write_string_ops : list bytes :=
-  [b#"binary.Write LittleEndian uint32(len(s))"; b#"Write []byte(s)"].
+  [b#"if uint64(len(s)) > math.MaxUint32"; b#"binary.Write LittleEndian uint32(len(s))"; b#"Write []byte(s)"].
 Definition model_read_string_ops : list bytes :=
-  [b#"binary.Read LittleEndian &length"; b#"make []byte length"; b#"io.ReadFull data"].
+  [b#"binary.Read LittleEndian &length"; b#"if int64(length) > int64(r.Len())"; b#"make []byte length"; b#"io.ReadFull data"].
 Definition model_deserialize_binary_ops : list bytes :=
   [b#"binary.Read LittleEndian &version";
    b#"if version != 1";
@@ -237,10 +214,11 @@ Definition model_deserialize_binary_ops : list bytes :=
    b#"binary.Read LittleEndian &compiled.LastModified";
    b#"binary.Read LittleEndian &compiled.CompileTime";
    b#"binary.Read LittleEndian &astLength";
+   b#"if int64(astLength) > int64(r.Len())";
    b#"make []byte astLength";
    b#"io.ReadFull compiled.AST"].
 Definition model_deserialize_ops : list bytes :=
-  [b#"if len(data) == 0"; b#"deserializeBinaryFormat data"; b#"if err == nil"; b#"deserializeGobFormat data"].
+  [b#"if len(data) == 0"; b#"deserializeBinaryFormat data"; b#"if err == nil"; b#"if data[0] == 1"; b#"deserializeGobFormat data"].
 Definition model_compiled_paths : list bytes :=
   [b#"Load filepath.Join(l.directory, name + l.fileExtension)";
    b#"SaveCompiled filepath.Join(l.directory, name + l.fileExtension)";
